@@ -334,8 +334,19 @@ def catalogue_case(args):
         truth = etgen.make_sim(root, simname, layout, restarts=rs, shape=(4, 3, 3), cuts=(2, 1, 1) if layout[0] == 'proc' else (1, 1, 1),
                                ghost=1, rls=(0, 1), variables=('alp', 'betax', 'betay', 'betaz'))
         p = etgen.param_for(root, simname)
+        # what SimFactory leaves next to the restarts: the 'active' symlink of the restart being written, and stray entries
+        last_r = max(r_[0] for r_ in rs)
+        try:
+            os.symlink(f'output-{last_r:04d}', os.path.join(root, simname, f'output-{last_r:04d}-active'))
+        except OSError:
+            pass
+        os.makedirs(os.path.join(root, simname, 'output-0000.bak'), exist_ok=True)
+        os.makedirs(os.path.join(root, simname, 'SIMFACTORY'), exist_ok=True)
         # fresh scan of everything
         full = aurel.iterations(p, skip_last=False, verbose=False)
+        extra_r = [k_ for k_ in full if isinstance(k_, (int, np.integer)) and int(k_) not in [r_[0] for r_ in rs]]
+        if extra_r or len([k_ for k_ in full if isinstance(k_, (int, np.integer))]) != len(rs):
+            bad.append(f'catalogue lists restarts {sorted(int(k_) for k_ in full if isinstance(k_, (int, np.integer)))}, the directory holds {[r_[0] for r_ in rs]}')
         for rnum, its, gen in rs:
             ent = full.get(rnum)
             if ent is None:
@@ -379,6 +390,14 @@ def catalogue_case(args):
                 etgen.make_sim(root2, simname, layout, restarts=rs[:-1], shape=(4, 3, 3), cuts=(2, 1, 1) if layout[0] == 'proc' else (1, 1, 1),
                                ghost=1, rls=(0, 1), variables=('alp', 'betax', 'betay', 'betaz'))
                 p2 = etgen.param_for(root2, simname)
+                # while the run is going on, the last restart is 'active' and must be skipped with skip_last=True
+                if len(rs) > 2:
+                    act = rs[-2][0]
+                    os.symlink(f'output-{act:04d}', os.path.join(root2, simname, f'output-{act:04d}-active'))
+                    part = aurel.iterations(p2, skip_last=True, verbose=False)
+                    if act in part and isinstance(part[act], dict) and part[act]:
+                        bad.append(f'skip_last=True catalogued the active restart {act}: {norm(part[act])}')
+                    os.remove(os.path.join(root2, simname, f'output-{act:04d}-active'))
                 aurel.iterations(p2, skip_last=False, verbose=False)
                 etgen.make_sim(root2, simname, layout, restarts=rs[-1:], shape=(4, 3, 3), cuts=(2, 1, 1) if layout[0] == 'proc' else (1, 1, 1),
                                ghost=1, rls=(0, 1), variables=('alp', 'betax', 'betay', 'betaz'))
